@@ -75,7 +75,9 @@ public:
   template <class F, class... Args,
             class = typename std::enable_if<!std::is_same<typename std::decay<F>::type, sim_thread>::value>::type>
   explicit sim_thread(F &&f, Args &&...args) : rec_(nullptr) {
-    start_(std::function<void()>(std::bind(std::forward<F>(f), std::forward<Args>(args)...)));
+    // decay-copy callable and arguments, invoke them as rvalues on the new thread (move-only callables included)
+    auto pack = std::make_shared<std::tuple<typename std::decay<F>::type, typename std::decay<Args>::type...>>(std::forward<F>(f), std::forward<Args>(args)...);
+    start_(std::function<void()>([pack] { std::apply([](auto &&fn, auto &&...a) { std::invoke(std::move(fn), std::move(a)...); }, *pack); }));
   }
   sim_thread(const sim_thread &) = delete;
   sim_thread &operator=(const sim_thread &) = delete;
@@ -249,6 +251,132 @@ public:
   template <class L, class C, class D, class Pred> bool wait_until(L &l, const std::chrono::time_point<C, D> &t, Pred p) { while (!p()) if (wait_until(l, t) == std::cv_status::timeout) return p(); return true; }
 };
 
+// futures: shared state = (simulated mutex, simulated condition variable, value); std::async runs its function on a
+// simulated thread, which the last future referring to it joins (the standard's blocking destructor)
+template <class T> struct sim_fval { std::optional<T> v; template <class U> void set(U &&u) { v.emplace(std::forward<U>(u)); } T take() { return std::move(*v); } const T &ref() const { return *v; } };
+template <class T> struct sim_fval<T &> { T *p = nullptr; void set(T &r) { p = &r; } T &take() { return *p; } T &ref() const { return *p; } };
+template <> struct sim_fval<void> { void set() {} void take() {} void ref() const {} };
+template <class T> struct sim_fstate {
+  sim_mutex m;
+  sim_condition_variable cv;
+  bool ready = false, is_async = false, future_taken = false;
+  int handles = 0;                  // futures / shared_futures referring to this state
+  std::exception_ptr ex;
+  sim_fval<T> val;
+  sim_thread th;
+  std::function<void()> deferred;
+  void publish() { { std::unique_lock<sim_mutex> l(m); ready = true; } cv.notify_all(); }
+  void wait() {
+    if (deferred) { std::function<void()> d; d.swap(deferred); d(); }
+    std::unique_lock<sim_mutex> l(m);
+    while (!ready) cv.wait(l);
+  }
+  std::future_status wait_timed() {
+    if (deferred) return std::future_status::deferred;
+    std::unique_lock<sim_mutex> l(m);
+    while (!ready) if (!cv.wait_timed_(l) && !ready) return std::future_status::timeout;
+    return std::future_status::ready;
+  }
+  void release_handle() { if (--handles == 0 && is_async && th.joinable()) { wait(); th.join(); } }
+};
+template <class T> class sim_shared_future;
+template <class T> class sim_future {
+  std::shared_ptr<sim_fstate<T>> s_;
+  template <class U> friend class sim_promise;
+  template <class U> friend class sim_shared_future;
+public:
+  sim_future() noexcept {}
+  explicit sim_future(std::shared_ptr<sim_fstate<T>> s) : s_(std::move(s)) { if (s_) s_->handles++; }
+  sim_future(sim_future &&o) noexcept : s_(std::move(o.s_)) { o.s_.reset(); }
+  sim_future(const sim_future &) = delete;
+  sim_future &operator=(const sim_future &) = delete;
+  sim_future &operator=(sim_future &&o) noexcept { if (this != &o) { drop_(); s_ = std::move(o.s_); o.s_.reset(); } return *this; }
+  ~sim_future() { drop_(); }
+  bool valid() const noexcept { return (bool)s_; }
+  void wait() const { s_->wait(); }
+  template <class R, class P> std::future_status wait_for(const std::chrono::duration<R, P> &) const { return s_->wait_timed(); }
+  template <class C, class D> std::future_status wait_until(const std::chrono::time_point<C, D> &) const { return s_->wait_timed(); }
+  T get() {
+    std::shared_ptr<sim_fstate<T>> s = s_;
+    s->wait();
+    struct drop_later { sim_future *f; ~drop_later() { f->drop_(); } } d{this};
+    if (s->ex) std::rethrow_exception(s->ex);
+    return s->val.take();
+  }
+  sim_shared_future<T> share() noexcept;
+private:
+  void drop_() { if (s_) { std::shared_ptr<sim_fstate<T>> s; s.swap(s_); s->release_handle(); } }
+};
+template <class T> class sim_shared_future {
+  std::shared_ptr<sim_fstate<T>> s_;
+public:
+  sim_shared_future() noexcept {}
+  sim_shared_future(sim_future<T> &&f) noexcept : s_(std::move(f.s_)) { f.s_.reset(); }
+  sim_shared_future(const sim_shared_future &o) : s_(o.s_) { if (s_) s_->handles++; }
+  sim_shared_future(sim_shared_future &&o) noexcept : s_(std::move(o.s_)) { o.s_.reset(); }
+  sim_shared_future &operator=(const sim_shared_future &o) { if (this != &o) { drop_(); s_ = o.s_; if (s_) s_->handles++; } return *this; }
+  sim_shared_future &operator=(sim_shared_future &&o) noexcept { if (this != &o) { drop_(); s_ = std::move(o.s_); o.s_.reset(); } return *this; }
+  ~sim_shared_future() { drop_(); }
+  bool valid() const noexcept { return (bool)s_; }
+  void wait() const { s_->wait(); }
+  template <class R, class P> std::future_status wait_for(const std::chrono::duration<R, P> &) const { return s_->wait_timed(); }
+  template <class C, class D> std::future_status wait_until(const std::chrono::time_point<C, D> &) const { return s_->wait_timed(); }
+  decltype(auto) get() const { s_->wait(); if (s_->ex) std::rethrow_exception(s_->ex); return s_->val.ref(); }
+private:
+  void drop_() { if (s_) { std::shared_ptr<sim_fstate<T>> s; s.swap(s_); s->release_handle(); } }
+};
+template <class T> sim_shared_future<T> sim_future<T>::share() noexcept { return sim_shared_future<T>(std::move(*this)); }
+template <class T> class sim_promise {
+  std::shared_ptr<sim_fstate<T>> s_;
+public:
+  sim_promise() : s_(std::make_shared<sim_fstate<T>>()) {}
+  sim_promise(sim_promise &&o) noexcept = default;
+  sim_promise &operator=(sim_promise &&o) noexcept = default;
+  sim_promise(const sim_promise &) = delete;
+  sim_promise &operator=(const sim_promise &) = delete;
+  ~sim_promise() { if (s_ && !s_->ready && s_->future_taken) { s_->ex = std::make_exception_ptr(std::future_error(std::future_errc::broken_promise)); s_->publish(); } }
+  sim_future<T> get_future() { if (s_->future_taken) throw std::future_error(std::future_errc::future_already_retrieved); s_->future_taken = true; return sim_future<T>(s_); }
+  template <class... U> void set_value(U &&...u) { if (s_->ready) throw std::future_error(std::future_errc::promise_already_satisfied); s_->val.set(std::forward<U>(u)...); s_->publish(); }
+  void set_exception(std::exception_ptr e) { if (s_->ready) throw std::future_error(std::future_errc::promise_already_satisfied); s_->ex = e; s_->publish(); }
+  void swap(sim_promise &o) noexcept { s_.swap(o.s_); }
+};
+template <class R, class Fn> void sim_run_into(sim_fstate<R> &st, Fn &fn) {
+  try { if constexpr (std::is_void<R>::value) { fn(); st.val.set(); } else st.val.set(fn()); } catch (...) { st.ex = std::current_exception(); }
+  st.publish();
+}
+template <class F, class... A> sim_future<typename std::invoke_result<typename std::decay<F>::type, typename std::decay<A>::type...>::type> sim_async(std::launch pol, F &&f, A &&...a) {
+  typedef typename std::invoke_result<typename std::decay<F>::type, typename std::decay<A>::type...>::type R;
+  std::shared_ptr<sim_fstate<R>> st = std::make_shared<sim_fstate<R>>();
+  st->future_taken = true;
+  sim_fstate<R> *raw = st.get();   // the state outlives the task: the last future waits for it and joins the thread
+  auto call = std::make_shared<decltype(std::bind(std::forward<F>(f), std::forward<A>(a)...))>(std::bind(std::forward<F>(f), std::forward<A>(a)...));
+  std::function<void()> task = [raw, call] { sim_run_into<R>(*raw, *call); };
+  if ((int)pol & (int)std::launch::async) { st->is_async = true; st->th = sim_thread(task); }
+  else st->deferred = task;
+  return sim_future<R>(st);
+}
+template <class F, class... A, class = typename std::enable_if<!std::is_same<typename std::decay<F>::type, std::launch>::value>::type>
+auto sim_async(F &&f, A &&...a) { return sim_async(std::launch::async, std::forward<F>(f), std::forward<A>(a)...); }
+template <class Sig> class sim_packaged_task;
+template <class R, class... A> class sim_packaged_task<R(A...)> {
+  std::function<R(A...)> fn_;
+  std::shared_ptr<sim_fstate<R>> s_;
+public:
+  sim_packaged_task() noexcept {}
+  template <class F, class = typename std::enable_if<!std::is_same<typename std::decay<F>::type, sim_packaged_task>::value>::type>
+  explicit sim_packaged_task(F &&f) : fn_(std::forward<F>(f)), s_(std::make_shared<sim_fstate<R>>()) {}
+  sim_packaged_task(sim_packaged_task &&) noexcept = default;
+  sim_packaged_task &operator=(sim_packaged_task &&) noexcept = default;
+  sim_packaged_task(const sim_packaged_task &) = delete;
+  sim_packaged_task &operator=(const sim_packaged_task &) = delete;
+  ~sim_packaged_task() { if (s_ && !s_->ready && s_->future_taken) { s_->ex = std::make_exception_ptr(std::future_error(std::future_errc::broken_promise)); s_->publish(); } }
+  bool valid() const noexcept { return (bool)s_; }
+  sim_future<R> get_future() { if (s_->future_taken) throw std::future_error(std::future_errc::future_already_retrieved); s_->future_taken = true; return sim_future<R>(s_); }
+  void operator()(A... a) { if (s_->ready) throw std::future_error(std::future_errc::promise_already_satisfied); auto b = [&] { return fn_(std::forward<A>(a)...); }; sim_run_into<R>(*s_, b); }
+  void reset() { s_ = std::make_shared<sim_fstate<R>>(); }
+  void swap(sim_packaged_task &o) noexcept { fn_.swap(o.fn_); s_.swap(o.s_); }
+};
+
 struct sim_once_flag {
   constexpr sim_once_flag() noexcept {}
   sim_once_flag(const sim_once_flag &) = delete;
@@ -279,6 +407,11 @@ template <class C, class D> void sim_sleep_until(const std::chrono::time_point<C
 #define shared_timed_mutex sim_shared_timed_mutex
 #define condition_variable_any sim_condition_variable_any
 #define once_flag sim_once_flag
+#define future sim_future
+#define shared_future sim_shared_future
+#define promise sim_promise
+#define packaged_task sim_packaged_task
+#define async(...) sim_async(__VA_ARGS__)
 #define call_once sim_call_once
 #define yield sim_yield
 #define sleep_for sim_sleep_for
